@@ -139,28 +139,30 @@ answers with the successor by some move (the proposed flat, the capstone on its 
 theorem placeWinsSelect_ok (basis : Array W) (c : Consts) (rnd : Nat → Nat) (p : Pos) (k : Nat) (mv : Move)
     (hmv : placeWinMove c p = .ok mv)
     (hex : ∃ m ∈ p.allMoves, ∃ q, p.apply basis m = .ok q) :
-    ∃ q k', placeWinsSelect basis c rnd p k = .ok (q, k') ∧ (∃ m, p.apply basis m = .ok q) ∧
+    ∃ q k', placeWinsSelect basis c rnd p k = .ok (q, k') ∧
+      (∃ m, (m ∈ p.allMoves ∨ (mv.type ≠ 0 ∧ (m = mv ∨ m = { mv with type := Facts.mtPlaceCapstone }))) ∧
+        p.apply basis m = .ok q) ∧
       k ≤ k' ∧ k' ≤ k + p.allMoves.length := by
-  obtain ⟨q, k', hu, ⟨m, _, hm⟩, hk1, hk2⟩ := uniformSelect_ok basis rnd p k hex
+  obtain ⟨q, k', hu, ⟨m, hmem, hm⟩, hk1, hk2⟩ := uniformSelect_ok basis rnd p k hex
   unfold placeWinsSelect
   simp only [hmv]
   by_cases ht : mv.type ≠ 0
   · rw [if_pos ht]
     cases h1 : p.apply basis mv with
-    | ok out => exact ⟨out, k, rfl, ⟨mv, h1⟩, Nat.le_refl _, by omega⟩
+    | ok out => exact ⟨out, k, rfl, ⟨mv, .inr ⟨ht, .inl rfl⟩, h1⟩, Nat.le_refl _, by omega⟩
     | error e1 =>
       obtain ⟨w1, hw1⟩ := apply_ill h1
       subst hw1
       simp only
       cases h2 : p.apply basis { mv with type := Facts.mtPlaceCapstone } with
-      | ok out => exact ⟨out, k, rfl, ⟨_, h2⟩, Nat.le_refl _, by omega⟩
+      | ok out => exact ⟨out, k, rfl, ⟨_, .inr ⟨ht, .inr rfl⟩, h2⟩, Nat.le_refl _, by omega⟩
       | error e2 =>
         obtain ⟨w2, hw2⟩ := apply_ill h2
         subst hw2
         simp only
-        exact ⟨q, k', hu, ⟨m, hm⟩, by omega, hk2⟩
+        exact ⟨q, k', hu, ⟨m, .inl hmem, hm⟩, by omega, hk2⟩
   · rw [if_neg ht]
-    exact ⟨q, k', hu, ⟨m, hm⟩, by omega, hk2⟩
+    exact ⟨q, k', hu, ⟨m, .inl hmem, hm⟩, by omega, hk2⟩
 
 /-! ### `rollout` -/
 
